@@ -1,3 +1,84 @@
-from checks import c11
+"""C06: cmdline / filename describe the current call only.
+(a) call histories of spec/SnoopyCall.tla replayed in one process (checks/c11.py machinery);
+(b) boundary argument vectors from spec/Cmdline.tla (the offset arithmetic of cmdline.c): every vector of <= 3 arguments
+    whose lengths sit around the data-source limit, realised with position-dependent bytes, must log the exact prefix."""
+import json, os, subprocess
+from concurrent.futures import ThreadPoolExecutor
+from vlib import common as c, drv
+from checks import c11, c05, callflow as cf
+
+ARGA = b"abcdefghijklmnopqrstuvwxyzABCDEFGHIJKLMNOPQRSTUVWXYZ0123456789_-+=.,:;%"
+
+
+def boundary_family(rep, b, tier):
+    rep.tlc(c.run_tlc("CmdlineMC.tla", "CmdlineMC.cfg"))
+    rep.cov.setdefault("vacuity_guards", {})["cmdline separator stored without terminator"] = \
+        c.run_tlc("CmdlineMC.tla", "CmdlineDefSep.cfg", expect_violation=True).violated
+    cases = []
+    for cfg in (["CmdlineGen.cfg"] + (["CmdlineGen2k.cfg"] if tier == "thorough" else ["CmdlineGen2k.cfg"])):
+        g = c.run_tlc("CmdlineMC.tla", cfg)
+        rep.tlc(g)
+        for x in g.printed:
+            cases.append(json.loads(x))
+    workers = c.NCPU
+    batches = [cases[i::workers] for i in range(workers)]
+    ctxs = [cf.Ctx(b, os.path.join(b["root"], "cmdl", "w%d" % i)) for i in range(workers)]
+
+    def argv_for(h):
+        return [c05.pat(ARGA, 3 * k + 1, n) for k, n in enumerate(h["args"])]
+
+    def one(i):
+        ctx = ctxs[i]
+        s = drv.Script()
+        s.add("sinkfile", "file", drv.hx(ctx.log)).path(ctx.helper).envp([b"A=1"]).add("ret", -1, 2).add("snap", 0)
+        for k, h in enumerate(batches[i]):
+            ini = b'[snoopy]\nmessage_format = "<%{cmdline}>"\noutput = file:' + ctx.log + b"\ndatasource_message_max_length = %d\n" % (h["cap"] - 1)
+            s.add("emit", "item:c%d" % k).add("fork").add("ini", drv.hx(ini)).argv(argv_for(h)).call("execve", "c%d" % k).add("endfork")
+        sp, op = os.path.join(ctx.w, "script"), os.path.join(ctx.w, "out")
+        open(sp, "w").write(s.text())
+        if os.path.exists(op):
+            os.unlink(op)
+        env = {"PATH": "/usr/bin:/bin", "LD_PRELOAD": b["lib"] + ":" + os.path.join(c.BUILD, "librec.so"), "XDRV_INI": os.path.join(ctx.etc, "snoopy.ini")}
+        subprocess.run([os.path.join(c.BUILD, "xdrv"), sp, op], env=env, capture_output=True, timeout=900, cwd=ctx.w, stdin=subprocess.DEVNULL)
+        res, cur = {}, None
+        for line in open(op, errors="replace") if os.path.exists(op) else []:
+            try:
+                e = json.loads(line)
+            except ValueError:
+                continue
+            if e["ev"] == "mark" and e["label"].startswith("item:"):
+                cur = e["label"][5:]
+                res[cur] = {}
+            elif cur and e["ev"] == "at" and e.get("label") == cur:
+                res[cur]["at"] = e
+            elif cur and e["ev"] == "child":
+                res[cur]["child"] = e
+        return res
+
+    with ThreadPoolExecutor(max_workers=workers) as ex:
+        outs = list(ex.map(one, range(workers)))
+    n = 0
+    for i in range(workers):
+        for k, h in enumerate(batches[i]):
+            n += 1
+            o = outs[i].get("c%d" % k, {})
+            exp = b"<" + b" ".join(argv_for(h))[:h["cap"] - 1] + b">\n"
+            if len(exp) - 3 != h["expect"]:
+                raise c.MachineryError("concretiser disagrees with the specification about the expected length")
+            if "at" not in o:
+                what = "no record: process died with signal %s" % o.get("child", {}).get("signal")
+                got = None
+            else:
+                got = bytes.fromhex(o["at"]["sinks"].get("file") or "")
+                what = None if got == exp else "logged %d bytes %r..., expected %d bytes ...%r" % (len(got), got[-24:], len(exp), exp[-24:])
+            if what:
+                edge = [("=" if x == h["cap"] - 1 else "<" if x < h["cap"] - 1 else ">") for x in [sum(h["args"][:j + 1]) + j for j in range(len(h["args"]))]]
+                rep.violation("cmdline-boundary:%s" % "".join(edge), "argument lengths %s with a result buffer of %d bytes: %s" % (h["args"], h["cap"], what),
+                              dict(arg_lengths=h["args"], cap=h["cap"], expected_length=h["expect"]))
+    return n
+
+
 def run(tier, seed, replay=None):
-    return c11.run_hist_prop("C06", tier, seed)
+    def extra(rep, b):
+        return boundary_family(rep, b, tier)
+    return c11.run_hist_prop("C06", tier, seed, extra=extra)
